@@ -9,7 +9,8 @@ Correspondence: generated configuration programs x targets, real `SSHClientConfi
 (and the real `asyncssh.connect` flow for a sample) versus the model; unit operations (shlex, `=` splitting,
 int(), wildcard patterns, expansion, the unsafe-user regex, Include globbing) versus CPython.
 Oracle: the property on the real code — agreement with `ssh -G` on generated files, metamorphic first-value /
-accumulation / inlining relations, hostile user names against server templates.
+accumulation / inlining relations, hostile user names against server templates, config objects based on one another
+(_c18_chain: reused options object, second pass of connect(), server reload, `none` values in prepare()).
 """
 
 from __future__ import annotations
@@ -30,6 +31,7 @@ from asyncssh.config import SSHClientConfig, SSHServerConfig
 from vlib import (Ctx, CorrResult, OracleResult, Failure, Disagreement, Hist, hx, unhx)
 from props import _c18_translate as tr
 from props import _c18_gen as g
+from props import _c18_chain as chain
 
 PROPERTY = 'C18'
 MANIFEST = {
@@ -47,6 +49,12 @@ MANIFEST = {
             'and the code, leave the property (expansion at the end of every parse() call, restart of the final '
             'pass, the empty user name, names assembling ${..} across substitutions) and, as pre-fix witnesses, the three '
             'defects repaired by fix commits (glob order / dotfiles, "=" kept for no-split options, user name "."). '
+            'Config objects based on one another are modelled as values: an inherited first-value option survives the '
+            'second canonical/final pass (second_pass_keeps_inherited), an inherited string is not expanded again '
+            '(inherited_value_not_expanded_again), connections made from one options object do not see one another '
+            '(connections_isolated), a wildcard does not match a hidden directory (hiddenOK_spec); the four repaired '
+            'defects are kept as PreFix definitions with witnesses (second_pass_dropped_options_prefix_witness, '
+            'inherited_reexpansion_prefix_witness, shared_list_prefix_witness, include_hidden_directory_witness). '
             'The model is tied to the code by '
             'generated configuration programs run through the real classes and the real connect() flow, and the '
             'property itself is evaluated on the real code against `ssh -G` and by metamorphic relations.',
@@ -69,7 +77,8 @@ ASSUMPTIONS = [
     'configuration text is valid UTF-8 without non-ASCII whitespace, cased non-ASCII letters or non-ASCII digits',
     'no carriage returns in config files; Include patterns use * and ? only, no ~user, no //',
     'canonicalisation (DNS) results are an input: the flow is modelled from the canonical host name on',
-    'options objects are fresh: no `options=` chaining of earlier SSHClientConnectionOptions',
+    'the Lean model is a pure function of (inherited options, files, target): the sharing of mutable lists '
+    'between config objects that the repaired code no longer has is judged by the oracle (_c18_chain), not by the model',
 ]
 
 MISSING = object()
@@ -531,7 +540,8 @@ def glob_ops(ctx: Ctx, rng: Any, scratch: str) -> Tuple[List[str], List[Tuple[st
     base = os.path.join(scratch, 'globworld')
     p = case_paths(base)
     names = ['home/.ssh/inc/a.conf', 'home/.ssh/inc/b.conf', 'home/.ssh/inc/.hidden.conf', 'home/.ssh/inc/zz.txt',
-             'home/.ssh/top.conf', 'abs/m.conf', 'abs/a.conf', 'abs/sub/deep.conf', 'abs/sub2/deep.conf', 'abs/n']
+             'home/.ssh/top.conf', 'abs/m.conf', 'abs/a.conf', 'abs/sub/deep.conf', 'abs/sub2/deep.conf', 'abs/n',
+             'abs/.hid/deep.conf', 'abs/.hid/.deep.conf', 'abs/sub-x/deep.conf', 'abs/sub/.deep.conf']
     rng.shuffle(names)
     for rel in names:
         path = os.path.join(base, rel)
@@ -541,7 +551,8 @@ def glob_ops(ctx: Ctx, rng: Any, scratch: str) -> Tuple[List[str], List[Tuple[st
     files = walk_files(base)
     pats = ['inc/*.conf', 'inc/*', '*.conf', '~/.ssh/inc/?.conf', '@ROOT@/abs/*.conf', '@ROOT@/abs/*/deep.conf',
             '@ROOT@/abs/sub/deep.conf', '@ROOT@/abs/*', 'inc/a.conf', './inc/b.conf', 'inc//a.conf', 'nothing/*',
-            '@ROOT@/abs/s*/d*', 'inc/.h*', 'inc/*.txt', '~/.ssh/top.conf', '@ROOT@/abs/?']
+            '@ROOT@/abs/s*/d*', 'inc/.h*', 'inc/*.txt', '~/.ssh/top.conf', '@ROOT@/abs/?',
+            '@ROOT@/abs/.*/deep.conf', '@ROOT@/abs/.hid/*', '@ROOT@/abs/*/.d*', '@ROOT@/abs/.h*/.d*', '@ROOT@/abs/*/*']
     for pat in pats:
         pat = subst(pat, base)
         conf = os.path.join(scratch, 'globprobe.conf')
@@ -557,6 +568,55 @@ def glob_ops(ctx: Ctx, rng: Any, scratch: str) -> Tuple[List[str], List[Tuple[st
         lines.append('glob ' + hx(pat.encode()) + ' home=' + hx(p['home'].encode()) + ' dir=' + hx(p['dir'].encode())
                      + ' ' + ' '.join(hx(f.encode()) for f in files))
         expect.append(('include_glob', {'pattern': pat, 'dir_order': [os.path.relpath(f, base) for f in files]}, out))
+    return lines, expect
+
+
+def chain_ops(ctx: Ctx, rng: Any, scratch: str, hist: Hist) -> Tuple[List[str], List[Tuple[str, Any, str]]]:
+    """a config object based on another one: the real SSHClientConnectionOptions chain (options object built from
+    one file, a connection derived from it with a second file) against a model load that inherits the options
+    object's resolved values (`inh=`: start of the load and `_last_options`, not expanded again)"""
+    lines: List[str] = []
+    expect: List[Tuple[str, Any, str]] = []
+    scs = [json.loads(json.dumps(c)) for c in chain.CORPUS if c['kind'] == 'chain-client']
+    while len(scs) < ctx.n(40, 400):
+        sc = chain.gen_scenario(rng)
+        if sc['kind'] == 'chain-client':
+            scs.append(sc)
+    b = lambda x: hx(x.encode('utf-8', 'surrogateescape'))  # noqa: E731
+    for i, sc in enumerate(scs):
+        base = os.path.join(scratch, 'ch%d' % i)
+        home = os.path.join(base, 'home')
+        os.makedirs(os.path.join(home, '.ssh'), exist_ok=True)
+        host = sc.get('host', 'h1')
+        with chain._Env(home):
+            f0 = chain._write(os.path.join(base, 'base.conf'), sc['base'])
+            try:
+                opts = asyncssh.SSHClientConnectionOptions(config=[f0], host=host, known_hosts=None, client_keys=None,
+                                                           agent_path=None)
+            except Exception:
+                continue
+            inherited = [(name, opts.config.get(name, MISSING)) for _l, (name, _h) in sorted(SSHClientConfig._handlers.items())]
+            inherited = [(n, v) for n, v in dict(inherited).items() if v is not MISSING]
+            text = sc['conns'][rng.randrange(len(sc['conns']))]
+            f1 = chain._write(os.path.join(base, 'conn.conf'), text)
+            try:
+                conn = asyncssh.SSHClientConnectionOptions(opts, config=[f1], host=host)
+                impl = render_config(conn.config, SSHClientConfig)
+            except Exception as e:
+                impl = classify_exc(e)
+        kv = ['load', 'cls=c', 'fuel=40', 'mode=load', 'home=' + b(home), 'dir=' + b(os.path.join(home, '.ssh')),
+              'lhost=' + b(socket.gethostname()), 'uid=' + b(str(os.getuid())), 'host=' + b(host),
+              'luser=' + b(g.LOCAL_USER), 'canonical=0', 'final=0']
+        for n, v in inherited:
+            kv.append('inh=' + b(n) + ':' + render_value(v))
+        for k, v in g.ENV_VARS.items():
+            kv.append('env=' + b(k) + ':' + b(v))
+        kv.append('env=' + b('HOME') + ':' + b(home))
+        kv.append('file=' + hx(os.fsencode(f1)) + ':' + hx(text.encode()))
+        kv.append('path=' + b(f1))
+        lines.append(' '.join(kv))
+        expect.append(('chain_load', {'scenario': sc, 'conn': text}, impl))
+        hist.hit('chain-load:' + ('exc' if impl.startswith('exc') else 'ok'))
     return lines, expect
 
 
@@ -607,10 +667,14 @@ def correspondence(ctx: Ctx) -> CorrResult:
     lines += flow_lines
     expect += flow_expect
 
+    cl, ce = chain_ops(ctx, ctx.subrng('corr-chain'), scratch, hist)
+    lines += cl
+    expect += ce
+
     out = ctx.model(DRIVER, lines)
     for line, (name, case, impl), mod in zip(lines, expect, out):
         res.cases += 1
-        if name.startswith('load:') or name == 'connect_flow':
+        if name.startswith('load:') or name in ('connect_flow', 'chain_load'):
             mod = canon_model(mod)
         if name == 'connect_flow':
             mod = flow_view(mod)
@@ -893,9 +957,14 @@ def compare_with_ssh(case: Dict[str, Any], base: str) -> Tuple[str, List[Tuple[s
     return ('differs' if diffs else 'ok'), diffs
 
 
+# narrowed after the model audit: backslashes, `Match ... =` spellings and the `canonical` criterion are comparable
+# (the deviations they show have their own signatures below).  Still excluded: CanonicalizeHostname /
+# CanonicalDomains (ssh would ask the resolver), tokens and environment references (`ssh -G` prints most of them
+# unexpanded), `none` (printed literally by ssh; what prepare() does with it is judged in _c18_chain), `~`, single
+# quotes, and the OpenSSH-only couplings (Tag/tagged, ProxyJump, ChallengeResponse alias, ForwardAgent path)
 _NOT_COMPARABLE = re.compile(
-    r'(?i)canonical|tagged|\btag\b|proxyjump|challengeresponse|forwardagent|\\|\bnone\b|%|\$|~|\'|'
-    r'^\s*match\b.*=', re.M)
+    r'(?i)canonicali[sz]e|canonicaldomains|tagged|\btag\b|proxyjump|challengeresponse|forwardagent|\bnone\b|%|\$|~|\'',
+    re.M)
 
 
 def ssh_comparable(case: Dict[str, Any]) -> bool:
@@ -903,7 +972,7 @@ def ssh_comparable(case: Dict[str, Any]) -> bool:
     keep only those written with the constructs on which `ssh -G` output and asyncssh values are comparable
     (no tokens - ssh prints most of them unexpanded -, no OpenSSH-only couplings, OpenSSH quoting only)"""
     return not _NOT_COMPARABLE.search(all_text(case)) and len(case.get('main', [])) == 1 and \
-        case['target'].get('canon') is None
+        case['target'].get('canon') is None and not case['target'].get('canonical')
 
 
 def case_lines(case: Dict[str, Any]) -> List[Tuple[str, int]]:
@@ -935,7 +1004,110 @@ def all_text(case: Dict[str, Any]) -> str:
     return '\n'.join(case['files'].values())
 
 
+_PROBE_N = [0]
+
+
+def _agrees_after(case: Dict[str, Any], base: str, edit: Any) -> bool:
+    """does the difference with `ssh -G` go away when every file text is rewritten by `edit`?"""
+    c = json.loads(json.dumps(case))
+    changed = False
+    for rel, text in case['files'].items():
+        new = edit(rel, text)
+        if new is None:
+            del c['files'][rel]
+            changed = True
+        elif new != text:
+            c['files'][rel] = new
+            changed = True
+    if not changed:
+        return False
+    _PROBE_N[0] += 1
+    b = '%s-probe%d' % (base, _PROBE_N[0])
+    materialise(c, b)
+    return compare_with_ssh(c, b)[0] == 'ok'
+
+
+_EXEC_RX = re.compile(r'(?im)^(\s*match\b.*?\bexec[ \t=]+)"([^"\n]*)"')
+_TRAILING_COMMENT_RX = re.compile(r'(?m)^(\s*[A-Za-z][^#\n]*?)[ \t]+#.*$')
+_MATCH_HOST_RX = re.compile(r'(?im)^(\s*match\b.*)$')
+
+
+def _exec_status_edit(host: str) -> Any:
+    """replace a quoted `Match exec "cmd"` by `true` / `false` according to the exit status of the command as
+    OpenSSH runs it (percent tokens %h %n %% expanded, the quoted text kept whole)"""
+    def edit(_rel: str, text: str) -> str:
+        def sub(m: Any) -> str:
+            cmd = re.sub(r'%(.)', lambda t: {'h': host, 'n': host, '%': '%'}.get(t.group(1), t.group(0)), m.group(2))
+            rc = subprocess.run(cmd, shell=True, stdin=subprocess.DEVNULL, stdout=subprocess.DEVNULL,
+                                stderr=subprocess.DEVNULL, timeout=20).returncode
+            return m.group(1) + ('true' if rc == 0 else 'false')
+        return _EXEC_RX.sub(sub, text)
+    return edit
+
+
+def _hidden_dir_edit(case: Dict[str, Any], base: str) -> Any:
+    """drop the files an Include wildcard can only reach through a hidden directory that glob(3) skips"""
+    reach = set()
+    for m in re.finditer(r'(?im)^\s*include[ \t=]+(.*)$', all_text(case)):
+        try:
+            pats = shlex.split(subst(m.group(1), base))
+        except ValueError:
+            continue
+        for pat in pats:
+            reach.update(openssh_glob(abs_pattern(pat, base)))
+
+    def edit(rel: str, text: str) -> Optional[str]:
+        parts = rel.split('/')
+        if rel not in case['main'] and any(x.startswith('.') for x in parts[:-1]) and \
+                os.path.join(base, rel) not in reach:
+            return None
+        return text
+    return edit
+
+
+def classify_by_probe(case: Dict[str, Any], base: str, diffs: List[Tuple[str, Any, Any]]) -> Optional[str]:
+    """root causes found by the model audit: each is confirmed by rewriting the input into the spelling on which
+    both resolvers are known to agree and observing that the difference disappears"""
+    raw = all_text(case)
+    host = case['target']['host']
+    if _TRAILING_COMMENT_RX.search(raw) and \
+            _agrees_after(case, base, lambda _r, t: _TRAILING_COMMENT_RX.sub(lambda m: m.group(1), t)):
+        return 'ssh-G:trailing-comment-not-ignored'
+    m = _EXEC_RX.search(raw)
+    if m and ('=' in m.group(2) or '%' in m.group(2)) and _agrees_after(case, base, _exec_status_edit(host)):
+        return 'ssh-G:match-exec-quoted-command-split-at-equals' if '=' in m.group(2) else \
+            'ssh-G:match-exec-command-not-percent-expanded'
+    if '\\' in raw and _agrees_after(case, base, lambda _r, t: t.replace('\\', '\\\\')):
+        return 'ssh-G:backslash-removed-from-value'
+    if re.search(r'(?im)^\s*match\b.*\b(host|originalhost)\b', raw) and raw != raw.lower() and \
+            _agrees_after(case, base, lambda _r, t: _MATCH_HOST_RX.sub(lambda m: m.group(1).lower(), t)):
+        return 'ssh-G:match-host-pattern-compared-case-sensitively'
+    if re.search(r'(?im)^\s*match\b.*\bcanonical\b', raw) and \
+            _agrees_after(case, base, lambda _r, t: _MATCH_HOST_RX.sub(
+                lambda m: re.sub(r'(?i)\bcanonical\b', 'final', m.group(1)), t)):
+        return 'ssh-G:match-canonical-false-in-final-pass'
+    if re.search(r'(?im)^\s*include\b', raw):
+        if any(x.startswith('.') for rel in case['files'] for x in rel.split('/')[:-1]) and \
+                _agrees_after(case, base, _hidden_dir_edit(case, base)):
+            return 'include:glob-matches-hidden-directory'
+        for m in re.finditer(r'(?im)^\s*include[ \t=]+(.*)$', raw):
+            try:
+                pats = shlex.split(subst(m.group(1), base))
+            except ValueError:
+                continue
+            for pat in pats:
+                hits = openssh_glob(abs_pattern(pat, base))
+                if sorted(hits, key=lambda h: h.split('/')) != hits and \
+                        _agrees_after(case, base, lambda _r, t: t.replace(
+                            m.group(1), ' '.join(h.replace(base, '@ROOT@') for h in hits))):
+                    return 'include:glob-order-by-components-not-by-path-string'
+    return None
+
+
 def classify_ssh_diff(case: Dict[str, Any], base: str, diffs: List[Tuple[str, Any, Any]]) -> str:
+    sig = classify_by_probe(case, base, diffs)
+    if sig:
+        return sig
     text = all_text(case).lower()
     opts = sorted(set(d[0] for d in diffs))
     if opts == ['<load>']:
@@ -977,6 +1149,9 @@ def oracle_ssh(ctx: Ctx, rng: Any, scratch: str, hist: Hist, res: OracleResult) 
         c['mode'] = 'resolve'
         c['main'] = c['main'][:1]
         cases.append(c)
+    qrng = ctx.subrng('oracle-quirks')
+    for _ in range(ctx.n(40, 600)):
+        cases.append(gen_quirk_case(qrng))
     counter = [0]
     seen_sigs: Dict[str, int] = {}
     for i, case in enumerate(cases):
@@ -1092,7 +1267,15 @@ def classify_inline_diff(case: Dict[str, Any], base: str, a: str, b: str) -> str
             import pathlib
             root = pathlib.Path('/')
             got = [str(x) for x in root.glob(pth.lstrip('/')) if x.is_file()]
+            if sorted(got) == want and sorted(want, key=lambda x: x.split('/')) != want:
+                # sorted as Path objects (component by component), glob(3) sorts the path strings
+                return 'include:glob-order-by-components-not-by-path-string'
             if got != want:
+                extra = [x for x in got if x not in want]
+                if extra and set(want) <= set(got) and \
+                        all(not os.path.basename(x).startswith('.') for x in extra):
+                    # the file's own name is not hidden: it was reached through a hidden directory
+                    return 'include:glob-matches-hidden-directory'
                 if sorted(got) != want:
                     return 'include:glob-matches-dotfiles'
                 return 'include:glob-in-directory-order-not-sorted'
@@ -1400,6 +1583,73 @@ SSH_CORPUS: List[Dict[str, Any]] = [
      'main': ['main.conf'], 'target': {'host': 'h1', 'user': None, 'port': None}, 'mode': 'resolve'},
 ]
 
+def _sc(files: Dict[str, str], host: str = 'h1') -> Dict[str, Any]:
+    return {'cls': 'client', 'files': files, 'main': ['main.conf'], 'target': {'host': host, 'user': None, 'port': None},
+            'mode': 'resolve'}
+
+
+# deviations from OpenSSH demonstrated by the model audit (one minimal program per root cause)
+SSH_CORPUS += [
+    _sc({'main.conf': 'Include @ROOT@/abs/conf.d/*/x.conf\n', 'abs/conf.d/.disabled/x.conf': 'User from_hidden_dir\n',
+         'abs/conf.d/site/x.conf': 'User from_site\n'}),
+    _sc({'main.conf': 'Include @ROOT@/abs/order.d/*/x.conf\n', 'abs/order.d/a/x.conf': 'Port 1001\n',
+         'abs/order.d/a-b/x.conf': 'Port 1002\n'}),
+    _sc({'main.conf': 'Match exec "test 1 = 1"\n Port 2222\n'}),
+    _sc({'main.conf': 'Match exec "echo %h | grep -q h1"\n Port 2222\n'}),
+    _sc({'main.conf': 'Match final\n ServerAliveInterval 7\nMatch canonical\n Port 2222\n'}),
+    _sc({'main.conf': 'User CORP\\bob\nHostKeyAlias x\\ty\n'}),
+    _sc({'main.conf': 'Port 2222 # the bastion\nUser bob\n'}),
+    _sc({'main.conf': 'Match host H1\n Port 2200\nMatch originalhost h?,H1\n HostKeyAlias viaorig\n'}),
+]
+
+
+def gen_quirk_case(rng: Any) -> Dict[str, Any]:
+    """generator reach for the constructs the plain `ssh_safe` stream never writes: wildcards in directory
+    components of Include, quoted exec commands with `=` / tokens, `Match canonical`, backslashes, trailing comments,
+    upper-case letters in Match host patterns"""
+    host = rng.choice(['h1', 'h2', 'gw', 'x'])
+    k = rng.randrange(8)
+    port = rng.choice([2201, 2202, 2203])
+    user = rng.choice(g.USERS)
+    if k == 0:
+        hid = rng.choice(['.disabled', '.old', '.git'])
+        vis = rng.choice(['site', 'a', 'zz'])
+        files = {'main.conf': 'Include @ROOT@/abs/d/*/%s\nPort %d\n' % (rng.choice(['x.conf', '*.conf', '?.conf']), port),
+                 'abs/d/%s/x.conf' % hid: 'User hidden-%s\n' % user, 'abs/d/%s/x.conf' % vis: 'HostKeyAlias vis\n'}
+        if rng.random() < 0.5:
+            files['abs/d/%s/x.conf' % vis] += 'User %s\n' % user
+    elif k == 1:
+        a = rng.choice(['a', 'k1', 'site'])
+        b = a + rng.choice(['-b', '.d', '+x', ',1', ' 2', '#3', '!'])
+        opt = rng.choice(['Port %d', 'ConnectTimeout %d', 'ServerAliveInterval %d'])
+        files = {'main.conf': 'Include "@ROOT@/abs/o/*/x.conf"\n', 'abs/o/%s/x.conf' % a: opt % 1001 + '\n',
+                 'abs/o/%s/x.conf' % b: opt % 1002 + '\n'}
+    elif k == 2:
+        cmd = rng.choice(['test 1 = 1', 'test 1 = 2', 'test a != b', 'X=1 true', 'test %s = %s' % (host, host),
+                          'test "$HOME" = /nonexistent'])
+        neg = rng.choice(['', '', '!'])
+        files = {'main.conf': 'Match %sexec "%s"\n Port %d\nHost *\n User %s\n' % (neg, cmd.replace('"', ''), port, user)}
+    elif k == 3:
+        cmd = rng.choice(['echo %h | grep -q HOST', 'test %h != HOST', 'echo %n | grep -q zz',
+                          'echo %h | grep -qv HOST']).replace('HOST', host)
+        files = {'main.conf': 'Match exec "%s"\n Port %d\n' % (cmd, port)}
+    elif k == 4:
+        neg = rng.choice(['', '', '!'])
+        files = {'main.conf': 'Match final\n ServerAliveInterval 7\nMatch %scanonical\n Port %d\n' % (neg, port) +
+                              rng.choice(['', 'Match canonical host %s\n User %s\n' % (host, user)])}
+    elif k == 5:
+        v = rng.choice(['corp\\' + user, 'x\\ty', 'a\\', '\\\\srv\\share', 'dom\\%s' % user])
+        files = {'main.conf': '%s %s\n' % (rng.choice(['User', 'HostKeyAlias', 'BindAddress']), v)}
+    elif k == 6:
+        files = {'main.conf': '%s %s%s\nUser %s\n' % (rng.choice(['Port', 'ConnectTimeout']), port,
+                                                     rng.choice([' # the bastion', '\t#x', ' #', '  # a "b']), user)}
+    else:
+        pat = rng.choice([host.upper(), host[0].upper() + host[1:], '*' + host[1:].upper() if len(host) > 1 else host.upper()])
+        crit = rng.choice(['host', 'originalhost'])
+        files = {'main.conf': 'Match %s %s\n Port %d\nHost *\n User %s\n' % (crit, pat, port, user)}
+    return _sc(files, host)
+
+
 INLINE_CORPUS: List[Dict[str, Any]] = [
     {'cls': 'client', 'files': {'main.conf': 'Include @ROOT@/abs/i.conf\nHostname real\n', 'abs/i.conf': 'IdentityFile %h-key\n'},
      'main': ['main.conf'], 'target': {'host': 'h1', 'user': None, 'port': None}, 'mode': 'load'},
@@ -1409,6 +1659,13 @@ INLINE_CORPUS: List[Dict[str, Any]] = [
                                 'abs/aa.conf': 'Port 3\n', 'abs/b.conf': 'Port 4\n'},
      'main': ['main.conf'], 'target': {'host': 'h1', 'user': None, 'port': None}, 'mode': 'load'},
     {'cls': 'client', 'files': {'main.conf': 'Include @ROOT@/abs/*\nPort 9\n', 'abs/.hidden': 'Port 1\n'},
+     'main': ['main.conf'], 'target': {'host': 'h1', 'user': None, 'port': None}, 'mode': 'load'},
+    {'cls': 'client', 'files': {'main.conf': 'Include @ROOT@/abs/conf.d/*/x.conf\n',
+                                'abs/conf.d/.disabled/x.conf': 'User from_hidden_dir\n',
+                                'abs/conf.d/site/x.conf': 'User from_site\n'},
+     'main': ['main.conf'], 'target': {'host': 'h1', 'user': None, 'port': None}, 'mode': 'load'},
+    {'cls': 'client', 'files': {'main.conf': 'Include @ROOT@/abs/order.d/*/x.conf\n', 'abs/order.d/a/x.conf': 'Port 1001\n',
+                                'abs/order.d/a-b/x.conf': 'Port 1002\n'},
      'main': ['main.conf'], 'target': {'host': 'h1', 'user': None, 'port': None}, 'mode': 'load'},
 ]
 
@@ -1456,15 +1713,45 @@ def oracle_flow(ctx: Ctx, rng: Any, scratch: str, hist: Hist, res: OracleResult)
                 replay={'kind': 'connect-flow', 'case': case}))
 
 
+def oracle_chain(ctx: Ctx, rng: Any, scratch: str, hist: Hist, res: OracleResult) -> None:
+    """config OBJECTS based on one another (reused options object, second pass of connect(), server reload) and
+    `none` values in prepare(): scenarios of _c18_chain on the real classes and the real connect() flow"""
+    scs = [json.loads(json.dumps(c)) for c in chain.CORPUS]
+    for _ in range(ctx.n(120, 1500)):
+        scs.append(chain.gen_scenario(rng))
+    seen: Dict[str, int] = {}
+    for i, sc in enumerate(scs):
+        res.evaluations += 1
+        try:
+            found = chain.run_scenario(sc, os.path.join(scratch, 'k%d' % i))
+        except Exception as e:
+            found = [('options-chain:scenario-raises:' + type(e).__name__, '%s: %s' % (type(e).__name__, e))]
+        hist.hit('chain:%s:%s' % (sc['kind'], 'fail' if found else 'ok'))
+        for sig, what in found:
+            seen[sig] = seen.get(sig, 0) + 1
+            hist.hit('fail:' + sig)
+            if seen[sig] <= 2:
+                res.failures.append(Failure(signature=sig, what=what, replay={'kind': 'chain', 'scenario': sc}))
+    res.nontrivial += len(set(json.dumps(sc, sort_keys=True) for sc in scs))
+
+
 def oracle(ctx: Ctx) -> OracleResult:
     res = OracleResult()
     hist = Hist()
     rng = ctx.subrng('oracle')
     scratch = ctx.tmpdir()
+    oracle_chain(ctx, ctx.subrng('oracle-chain'), os.path.join(scratch, 'chain'), hist, res)
     oracle_ssh(ctx, rng, os.path.join(scratch, 'ssh'), hist, res)
     oracle_flow(ctx, rng, os.path.join(scratch, 'flow'), hist, res)
     oracle_metamorphic(ctx, rng, os.path.join(scratch, 'meta'), hist, res)
     oracle_users(ctx, rng, os.path.join(scratch, 'usr'), hist, res)
+    # one failing input per root cause first (the runner prints the first few only)
+    first_seen: Dict[str, int] = {}
+    ranked = []
+    for f in res.failures:
+        first_seen[f.signature] = first_seen.get(f.signature, 0) + 1
+        ranked.append((first_seen[f.signature], len(ranked), f))
+    res.failures = [f for _r, _i, f in sorted(ranked, key=lambda x: (x[0], x[2].signature.startswith('none-value:'), x[1]))]
     res.histogram = dict(hist)
     res.samples = [{'ssh-G keys compared': sorted(SSH_KEYS)[:8]},
                    {'user templates': g.AK_TEMPLATES[:4], 'hostile names': g.HOSTILE_USERS[:8]}]
@@ -1473,8 +1760,12 @@ def oracle(ctx: Ctx) -> OracleResult:
                 'the real classes: first line wins, later `Match all` line only fills gaps, list option grows by exactly '
                 'the appended value, Include versus the included lines pasted in place (+ `Match all`), criterion versus '
                 'its negation; (3) hostile user names x AuthorizedKeysFile templates against SSHServerConfig: refused, '
-                'or the single textual substitution with unchanged normalised component structure; distinct = distinct '
-                'file sets / (template, name) pairs' % len(SSH_KEYS))
+                'or the single textual substitution with unchanged normalised component structure; (4) config objects '
+                'based on one another: a reused options object and the connections derived from it (isolation, '
+                'agreement with reading the files in order, inherited values expanded once), connect(options=, config=) '
+                'with a second canonical/final pass versus the same files passed together, a server options object + '
+                'listen config over several real connections (one reload_config each), `none` values in prepare(); '
+                'distinct = distinct file sets / (template, name) pairs / scenarios' % len(SSH_KEYS))
     return res
 
 
@@ -1516,6 +1807,9 @@ def replay(ctx: Ctx, rep: Dict[str, Any]) -> List[Failure]:
     elif kind == 'user':
         _o, fs = eval_user_pair(r['template'], r['user'], bool(r.get('via_include')), os.path.join(scratch, 'usr'))
         fails += fs
+    elif kind == 'chain':
+        for sig, what in chain.run_scenario(r['scenario'], os.path.join(scratch, 'chain')):
+            fails.append(Failure(sig, what, r))
     elif kind == 'negation':
         tx = 'Match %s\n HostKeyAlias pos\nMatch !%s\n HostKeyAlias neg\n' % (r['crit'], r['crit'])
         c5 = {'cls': 'client', 'files': {'main.conf': tx}, 'main': ['main.conf'], 'target': r['target'], 'mode': 'load'}
